@@ -1,6 +1,6 @@
 //! Common types of the five Sim-B oracles and the per-run record the driver merges.
-use crate::engine::{DrawPlan, Engine, ResultSet, SiteKey, SiteLog};
-use crate::scenario::{Cell, Scenario, TableSpec};
+use simcommon::engine::{DrawPlan, Engine, ResultSet, SiteKey, SiteLog};
+use simcommon::scenario::{Cell, Scenario, TableSpec};
 use serde::{Deserialize, Serialize};
 use std::collections::BTreeMap;
 
@@ -89,10 +89,10 @@ impl<'a> Exec<'a> {
                 self.stats.draws += d;
                 for (k, l) in log {
                     let kind = match (k.role, k.alias.as_str()) {
-                        (crate::engine::Role::Other, crate::engine::CAP_ALIAS) => "draw_cap",
-                        (crate::engine::Role::Other, crate::engine::ROW_ID_ALIAS) => "draw_row_id",
-                        (crate::engine::Role::Other, _) => "draw_other",
-                        (_, crate::engine::THRESHOLD_ALIAS) => "draw_threshold_noise",
+                        (simcommon::engine::Role::Other, simcommon::engine::CAP_ALIAS) => "draw_cap",
+                        (simcommon::engine::Role::Other, simcommon::engine::ROW_ID_ALIAS) => "draw_row_id",
+                        (simcommon::engine::Role::Other, _) => "draw_other",
+                        (_, simcommon::engine::THRESHOLD_ALIAS) => "draw_threshold_noise",
                         _ => "draw_aggregate_noise",
                     };
                     *self.stats.faults.entry(kind.to_string()).or_default() += l.calls;
